@@ -1,7 +1,9 @@
 /* C02/C03/C15 harness: executes a build script through the REAL flatcc runtime builder API with a recording
  * emitter and prints every emitter call, every returned reference, the finished bytes and the reported alignment.
  *
- * One request line:   build <op> <op> ...      (buildm: the same with an allocator that moves every block it grows)
+ * One request line:   build <op> <op> ...      (buildm: the same with an allocator that moves every block it grows;
+ *                                               buildd: flatcc's DEFAULT emitter (src/runtime/emitter.c, paged front / back) instead of the
+ *                                               recording one: bytes= is what flatcc_builder_finalize_buffer returns, emits=-)
  * One reply line:     OK refs=<r,..> align=<a> start=<s> end=<e> bytes=<hex> emits=<off>:<hex>;...   |  FAIL <op index> <op>
  *
  * Ops (fields separated by ':'; <r> = index of an earlier result; results are numbered in completion order):
@@ -244,16 +246,30 @@ int main(void)
         flatcc_builder_t builder, *B = &builder;
         rec_t R;
         char *failop = 0;
-        if (nt < 1 || (strcmp(tok[0], "build") && strcmp(tok[0], "buildm"))) { printf("BAD\n"); fflush(stdout); continue; }
+        if (nt < 1 || (strcmp(tok[0], "build") && strcmp(tok[0], "buildm") && strcmp(tok[0], "buildd"))) { printf("BAD\n"); fflush(stdout); continue; }
         memset(&R, 0, sizeof(R));
         nregs = 0;
-        flatcc_builder_custom_init(B, rec_emit, &R, tok[0][5] == 'm' ? moving_alloc : 0, 0);
+        if (tok[0][5] == 'd') flatcc_builder_init(B);
+        else flatcc_builder_custom_init(B, rec_emit, &R, tok[0][5] == 'm' ? moving_alloc : 0, 0);
         for (i = 1; i < nt; ++i) {
             failop = strdup(tok[i]);
             if (run_op(B, tok[i])) { failed = i - 1; break; }
             free(failop); failop = 0;
         }
         if (failed >= 0) { printf("FAIL %d %s\n", failed, failop); free(failop); }
+        else if (tok[0][5] == 'd') {
+            size_t sz = 0, want = flatcc_builder_get_buffer_size(B); void *buf = flatcc_builder_finalize_buffer(B, &sz);
+            printf("OK refs=");
+            if (!nregs) printf("-");
+            for (i = 0; i < nregs; ++i) printf("%s%ld", i ? "," : "", (long)regs[i]);
+            printf(" align=%u start=%ld end=%ld bytes=", (unsigned)flatcc_builder_get_buffer_alignment(B),
+                   (long)flatcc_builder_get_buffer_start(B), (long)flatcc_builder_get_buffer_end(B));
+            if (!buf || !sz) printf("-"); else hx_print((const uint8_t *)buf, sz);
+            printf(" emits=-");
+            if (sz != want) printf(" SIZE-MISMATCH");
+            printf("\n");
+            if (buf) flatcc_builder_free(buf);
+        }
         else {
             size_t k;
             printf("OK refs=");
